@@ -538,6 +538,9 @@ def c15(tier, seed):
         # process found it under the same path
         + [dict(kind="cache18", pid="C15", n_cases=(120 if tier == "quick" else 1200), only=["restart_returns_values_of_an_older_cache_file_content"],
                 **_seeds(seed + 37, k)) for k in range(2 if tier == "quick" else 8)]
+        # "... never on DAGs composed from it" - nor on DAGs that NEST it: the inner DAG object called directly afterwards is unchanged
+        + diff_jobs("C15", tier, seed + 9, dict(flags=0.1, nest=0.5, nest_flag=0.0, share_fns=0.5, max_stmts=6), 2, scale=0.4, nj_scale=0.5,
+                    only=["nested_dag_object_behaves_differently_after_it_was_nested"])
         # copies (deepcopy, dill round trip) made before / after calls and failed calls behave like the freshly built DAG, and so does
         # the original; an await after a CANCELLED await; an inner DAG after it was called from node functions of another DAG
         + [dict(kind="env", pid="C15", scenarios=["copies", "loops", "reentrant"], n_cases=(150 if tier == "quick" else 900),
